@@ -76,3 +76,27 @@ void h_lemma_wrapper (void)
     VF_ASSERT (r2 == r3, "intersects(box, ray) == intersects(box, ray, ip)");
     VF_END ();
 }
+/* lemmas: the three per-axis blocks are the same code up to renaming - relabelling the axes cyclically (x <- y <- z <- x) on the
+ * box and the line must not change the answer (the accumulators are a max / min over the axes and NaN never enters them because
+ * the updates use strict comparisons, so the order of the blocks is immaterial); arithmetic uninterpreted */
+#define CYC(v) do { float t_ = (v).x; (v).x = (v).y; (v).y = (v).z; (v).z = t_; } while (0)
+void h_lemma_perm_entryexit (void)
+{
+    SETUP ();
+    V3 en = { 0, 0, 0 }, ex = { 0, 0, 0 }, en2 = { 0, 0, 0 }, ex2 = { 0, 0, 0 };
+    _Bool r1 = F_entryexit (&r, &b, &en, &ex);
+    BX b2 = b; LN l2 = r; CYC (b2.min); CYC (b2.max); CYC (l2.pos); CYC (l2.dir);
+    _Bool r2 = F_entryexit (&l2, &b2, &en2, &ex2);
+    VF_ASSERT (r1 == r2, "findEntryAndExitPoints: relabelling the axes does not change the answer");
+    VF_END ();
+}
+void h_lemma_perm_intersects (void)
+{
+    SETUP ();
+    V3 ip = { 0, 0, 0 }, ip2 = { 0, 0, 0 };
+    _Bool r1 = F_intersects_ip (&b, &r, &ip);
+    BX b2 = b; LN l2 = r; CYC (b2.min); CYC (b2.max); CYC (l2.pos); CYC (l2.dir);
+    _Bool r2 = F_intersects_ip (&b2, &l2, &ip2);
+    VF_ASSERT (r1 == r2, "intersects(box, ray, ip): relabelling the axes does not change the answer");
+    VF_END ();
+}
